@@ -36,7 +36,13 @@ var c02Messages = []string{
 	"line1\r\nline2\n",
 	"  lead and trail  ",
 	strings.Repeat("long-0123456789 ", 256),
+	// 24 KB of non-ASCII text: more than 64 KiB once percent-encoded (one trailer line)
+	strings.Repeat("☃ü", 24*1024/5),
 }
+
+// c02LongMsg is the index of the message whose encoded form exceeds 64 KiB;
+// it is exercised by the dedicated large-error cases only.
+const c02LongMsg = 11
 
 func c02Details(i int) []proto.Message {
 	d1 := wrapperspb.String("detail one ☃")
@@ -48,6 +54,8 @@ func c02Details(i int) []proto.Message {
 		return []proto.Message{d1, d2}
 	case 3:
 		return []proto.Message{d2, d2}
+	case 4: // one detail of 60 KiB: the status trailer line exceeds 64 KiB
+		return []proto.Message{wrapperspb.String(strings.Repeat("detail-0123456789 ", 60*1024/18))}
 	}
 	return nil
 }
@@ -328,7 +336,7 @@ func c02Cases(thorough bool) []c02Case {
 				}
 				if thorough {
 					for code := 0; code <= 16; code++ {
-						for msg := range c02Messages {
+						for msg := range c02Messages[:c02LongMsg] {
 							for det := 0; det < 4; det++ {
 								for meta := range c02Metas {
 									for _, sent := range sents {
@@ -348,7 +356,7 @@ func c02Cases(thorough bool) []c02Case {
 					continue
 				}
 				for code := 0; code <= 16; code++ {
-					for msg := range c02Messages {
+					for msg := range c02Messages[:c02LongMsg] {
 						out = append(out, c02Case{cfg, code, msg, 1, 1, 0, false, 0, false, 0, false})
 					}
 					// coded errors whose cause chain ends in a context error or io.EOF keep their own code
@@ -368,6 +376,22 @@ func c02Cases(thorough bool) []c02Case {
 							}
 						}
 					}
+				}
+			}
+		}
+	}
+	// large errors (one header / trailer line above 64 KiB), before and after messages
+	for _, p := range AllProtos {
+		for _, js := range []bool{false, true} {
+			for _, kind := range AllKinds {
+				cfg := Cfg{Proto: p, JSON: js, Comp: CompDefault, Kind: kind, HTTP: 2}
+				sents := []int{0}
+				if kind.ServerStreams() {
+					sents = []int{0, 1, 2}
+				}
+				for _, sent := range sents {
+					out = append(out, c02Case{Cfg: cfg, Code: 9, Msg: c02LongMsg, Details: 1, Meta: 4, Sent: sent})
+					out = append(out, c02Case{Cfg: cfg, Code: 9, Msg: 0, Details: 4, Meta: 4, Sent: sent})
 				}
 			}
 		}
@@ -432,7 +456,7 @@ func TestC02(t *testing.T) {
 						continue
 					}
 					for code := 0; code <= 16; code++ {
-						for msg := range c02Messages {
+						for msg := range c02Messages[:c02LongMsg] {
 							if hv == 1 && p == PGRPC && len(c02Messages[msg]) > 1000 {
 								// net/http's HTTP/1.1 chunked reader refuses trailers this long
 								// ("suspiciously long trailer"): a limit of that transport, not of the library
